@@ -1167,3 +1167,57 @@ V("C16", "as-dict-outside-oneshot", I,
   ("        with self.oneshot():\n            for name in ls:\n                try:\n                    if name == 'pid':\n                        ret = self.pid\n                    else:\n                        meth = getattr(self, name)\n                        ret = meth()\n                except (AccessDenied, ZombieProcess):\n                    ret = ad_value\n                except NotImplementedError:\n                    # in case of not implemented functionality (may happen\n                    # on old or exotic systems) we want to crash only if\n                    # the user explicitly asked for that particular attr\n                    if attrs:\n                        raise\n                    continue\n                retdict[name] = ret\n",
    "        for name in ls:\n            try:\n                if name == 'pid':\n                    ret = self.pid\n                else:\n                    meth = getattr(self, name)\n                    ret = meth()\n            except (AccessDenied, ZombieProcess):\n                ret = ad_value\n            except NotImplementedError:\n                if attrs:\n                    raise\n                continue\n            retdict[name] = ret\n"),
   "fires:C16.R5")
+
+# ----------------------------------------------------------------- benign refactors, batch 2
+V("C14", "benign-open-files-early-continue", L,
+  ("                if path.startswith('/') and isfile_strict(path):\n                    # Get file position and flags.\n                    file = f\"{self._procfs_path}/{self.pid}/fdinfo/{fd}\"\n                    try:\n                        with open_binary(file) as f:\n                            pos = int(f.readline().split()[1])\n                            flags = int(f.readline().split()[1], 8)\n                    except (FileNotFoundError, ProcessLookupError):\n                        # fd gone in the meantime; process may\n                        # still be alive\n                        hit_enoent = True\n                    else:\n                        mode = file_flags_to_mode(flags)\n                        ntuple = popenfile(\n                            path, int(fd), int(pos), mode, flags\n                        )\n                        retlist.append(ntuple)\n",
+   "                if not (path.startswith('/') and isfile_strict(path)):\n                    continue\n                # Get file position and flags.\n                file = f\"{self._procfs_path}/{self.pid}/fdinfo/{fd}\"\n                try:\n                    with open_binary(file) as f:\n                        pos = int(f.readline().split()[1])\n                        flags = int(f.readline().split()[1], 8)\n                except (FileNotFoundError, ProcessLookupError):\n                    # fd gone in the meantime; process may\n                    # still be alive\n                    hit_enoent = True\n                else:\n                    mode = file_flags_to_mode(flags)\n                    retlist.append(popenfile(path, int(fd), int(pos), mode, flags))\n"),
+  "silent")
+V("C14", "benign-open-files-errno-set", L,
+  ("                hit_enoent = True\n                continue\n            except OSError as err:\n                if err.errno == errno.EINVAL:\n                    # not a link\n                    continue\n                if err.errno == errno.ENAMETOOLONG:\n                    # file name too long\n                    debug(err)\n                    continue\n                raise",
+   "                hit_enoent = True\n                continue\n            except OSError as err:\n                if err.errno in {errno.EINVAL, errno.ENAMETOOLONG}:\n                    # not a link / file name too long\n                    debug(err)\n                    continue\n                raise"),
+  "silent")
+V("C14", "benign-num-fds-temp", L,
+  ("        return len(os.listdir(f\"{self._procfs_path}/{self.pid}/fd\"))",
+   "        entries = os.listdir(f\"{self._procfs_path}/{self.pid}/fd\")\n        return len(entries)"),
+  "silent")
+V("C16", "benign-memoiser-simplified-reraise", C,
+  ("            try:\n                return fun(self)\n            except Exception as err:  # noqa: BLE001\n                raise err from None\n        except KeyError:",
+   "            return fun(self)\n        except KeyError:"), "silent")
+V("C16", "benign-memoiser-handler-order", C,
+  ("            ret = self._cache[fun]\n        except AttributeError:\n            # case 2: we never entered oneshot() ctx\n            try:\n                return fun(self)\n            except Exception as err:  # noqa: BLE001\n                raise err from None\n        except KeyError:\n            # case 3: we entered oneshot() ctx but there's no cache\n            # for this entry yet\n            try:\n                ret = fun(self)\n            except Exception as err:  # noqa: BLE001\n                raise err from None\n            try:\n                self._cache[fun] = ret\n            except AttributeError:\n                # multi-threading race condition, see:\n                # https://github.com/giampaolo/psutil/issues/1948\n                pass\n",
+   "            ret = self._cache[fun]\n        except KeyError:\n            try:\n                ret = fun(self)\n            except Exception as err:  # noqa: BLE001\n                raise err from None\n            try:\n                self._cache[fun] = ret\n            except AttributeError:\n                pass\n        except AttributeError:\n            try:\n                return fun(self)\n            except Exception as err:  # noqa: BLE001\n                raise err from None\n"),
+  "silent")
+V("C16", "benign-oneshot-deactivate-order", I,
+  ("                    self.cpu_times.cache_deactivate(self)\n                    self.memory_info.cache_deactivate(self)\n                    self.ppid.cache_deactivate(self)\n",
+   "                    self.ppid.cache_deactivate(self)\n                    self.memory_info.cache_deactivate(self)\n                    self.cpu_times.cache_deactivate(self)\n"),
+  "silent")
+V("C07", "benign-busy-time-one-expression", I,
+  ("    busy = _cpu_tot_time(times)\n    busy -= times.idle\n",
+   "    busy = _cpu_tot_time(times) - times.idle\n"), "silent")
+V("C07", "benign-deltas-comprehension", I,
+  ("    field_deltas = []\n    for field in _psplatform.scputimes._fields:\n        field_delta = getattr(t2, field) - getattr(t1, field)\n",
+   "    field_deltas = []\n    for field in _psplatform.scputimes._fields:\n        new, old = getattr(t2, field), getattr(t1, field)\n        field_delta = new - old\n"),
+  "silent")
+V("C07", "benign-percent-zero-total-test", I,
+  ("        try:\n            busy_perc = (busy_delta / all_delta) * 100\n        except ZeroDivisionError:\n            return 0.0\n        else:\n            return round(busy_perc, 1)\n",
+   "        if all_delta == 0:\n            return 0.0\n        busy_perc = 100 * busy_delta / all_delta\n        return round(busy_perc, 1)\n"),
+  "silent")
+V("C07", "benign-percpu-list-comprehension", I,
+  ("        for t1, t2 in zip(tot1, _last_per_cpu_times[tid]):\n            ret.append(calculate(t1, t2))\n        return ret",
+   "        return [calculate(t1, t2) for t1, t2 in zip(tot1, _last_per_cpu_times[tid])]"),
+  "silent")
+V("C08", "benign-avail-get-or-fallback", L,
+  ("    try:\n        avail = mems[b'MemAvailable:']\n    except KeyError:\n        avail = calculate_avail_vmem(mems)\n    else:\n        if avail == 0:\n            # Yes, it can happen (probably a kernel bug):\n            # https://github.com/giampaolo/psutil/issues/1915\n            # In this case \"free\" CLI tool makes an estimate. We do the same,\n            # and it matches \"free\" CLI tool.\n            avail = calculate_avail_vmem(mems)\n",
+   "    avail = mems.get(b'MemAvailable:', 0)\n    if avail == 0:\n        # missing (kernel < 3.14) or zero (kernel bug, issue 1915)\n        avail = calculate_avail_vmem(mems)\n"),
+  "silent")
+V("C08", "benign-clamp-min-max", L,
+  ("    used = total - free - cached - buffers\n    if used < 0:\n",
+   "    used = total - free - cached - buffers\n    if 0 > used:\n"), "silent")
+V("C08", "benign-meminfo-split-temp", L,
+  ("    mems = {}\n    with open_binary(f\"{get_procfs_path()}/meminfo\") as f:\n        for line in f:\n            fields = line.split()\n            mems[fields[0]] = int(fields[1]) * 1024\n\n    # /proc doc states",
+   "    mems = {}\n    with open_binary(f\"{get_procfs_path()}/meminfo\") as f:\n        for line in f:\n            fields = line.split()\n            key, kb = fields[0], int(fields[1])\n            mems[key] = kb * 1024\n\n    # /proc doc states"),
+  "silent")
+V("C08", "benign-slab-get", L,
+  ("    try:\n        slab = mems[b\"Slab:\"]\n    except KeyError:\n        slab = 0\n",
+   "    slab = mems.get(b\"Slab:\", 0)\n"), "silent")
